@@ -29,8 +29,8 @@ def share : ShareFacts :=
     lookup2RedeclInPlace := true,       -- … `if n.anc.kind != defineXStmt || n.redeclared || n.ident == "_" { return genValue(n) }`
     appendArgsAreSlots := false,        -- since b312e89 (was F04-6): operands copied into a fresh slice, then reflect.AppendSlice
     derefNilPanics := true,             -- since 93fb945 (was F04-10): `if !r.IsValid() { _ = *nilPtr }`
-    recvAssignsValue := true,           -- since 177a151 (was F08-7): no `src.action == aRecv` arm, the unaryExpr shortcut excludes aRecv
-    assertDefineFresh := true,          -- since 2fe0a18 (was F04-14): `value0 = genValueDefine(n.anc.child[0])`, same for the status
+    recvAssignsValue := true,           -- since 212dc2e (was F08-7): no `src.action == aRecv` arm, the unaryExpr shortcut excludes aRecv
+    assertDefineFresh := true,          -- since daee744 (was F04-14): `value0 = genValueDefine(n.anc.child[0])`, same for the status
     assertZeroOnFail := true }          -- … `if withResult && !*ok { v := value0(f); v.Set(reflect.Zero(v.Type())) }`
 
 /-- fingerprints (extract/common FuncHash) of the functions Model/Share.lean was transcribed from -/
